@@ -620,6 +620,63 @@ def _check_read_all(run, world, mod, Q, fn, cfg, ys, sel):
            "every value of self.values must be derived by "
            "memory_value.from_list(%s), dropping exactly "
            "MemoryLocationNotImplemented" % lst, where(mod, fn))
+    # ... and every value that was interpreted is reported: from the call's
+    # normal exit no path reaches the next value (or the end) without
+    # storing the result under the value - "exactly the values whose
+    # locations are all implemented", whatever they decode to
+    vheads = [n for n in cfg.reachable if n.kind == "for" and unparse(
+        n.ast.iter) == "self.values"]
+    csites = [n for n in cfg.reachable if n.kind == "stmt" and any(
+        isinstance(c, ast.Call) and isinstance(c.func, ast.Attribute) and
+        c.func.attr == "from_list" for c in _walk_no_nested(n.ast))]
+    if len(vheads) == 1 and len(csites) == 1:
+        head, cs = vheads[0], csites[0]
+        var = unparse(head.ast.target)
+        rname = None
+        if isinstance(cs.ast, ast.Assign) and isinstance(
+                cs.ast.targets[0], ast.Name):
+            rname = cs.ast.targets[0].id
+
+        def is_store(n):
+            a = n.ast
+            if not (n.kind == "stmt" and isinstance(a, ast.Assign) and len(
+                    a.targets) == 1 and isinstance(
+                        a.targets[0], ast.Subscript)):
+                return False
+            if unparse(a.targets[0].slice) != var:
+                return False
+            v = a.value
+            return (rname is not None and isinstance(v, ast.Name) and
+                    v.id == rname) or any(
+                isinstance(c, ast.Call) and isinstance(
+                    c.func, ast.Attribute) and c.func.attr == "from_list"
+                for c in ast.walk(v))
+        skipped = None
+        if not is_store(cs):
+            seen, stack = set(), [(m, [cs]) for (l, m) in cs.succ
+                                  if l != "exc"]
+            while stack:
+                n, path = stack.pop()
+                if n.id in seen:
+                    continue
+                seen.add(n.id)
+                if is_store(n):
+                    continue
+                if n is head or n is cfg.exit:
+                    skipped = path + [n]
+                    break
+                stack += [(m, path + [n]) for (l, m) in n.succ if l != "exc"]
+        run.ob("R-MEMR-SNAP", Q + "#every-interpreted-value-reported",
+               skipped is None,
+               "a value whose locations were all read can be left out of the "
+               "result: from `%s` the next value is reached without storing "
+               "the result under `%s` (%s)" % (
+                   unparse(cs.ast, 60), var, " -> ".join(
+                       "L%s" % x.lineno for x in (skipped or [])
+                       if x.lineno)), where(mod, cs))
+    else:
+        raise AnalysisError("%s: the loop over self.values / its from_list "
+                            "call is not in a form the rule can follow" % Q)
 
 
 _UP = {}
